@@ -35,6 +35,100 @@ def run(fx, rep, tier):
     rule_check(fx, rep)
     rule_label(fx, rep)
     rule_attackers(fx, rep)
+    rule_pins(fx, rep)
+
+
+# ---- C01-PINS ------------------------------------------------------------------------------
+
+PIN_ROLES = ("orthogonal_pins", "diagonal_pins", "check_mask")
+
+
+def param_roles(fx, f):
+    """{param index: role} for the parameters of a piece generator that, at every call site, receive the orthogonal pin mask,
+    the diagonal pin mask or the check mask (from pins::get_pins / the movegen cache / the `check_mask` local)"""
+    roles = {}
+    for (cb, bb, t) in fx.callers_of(lambda n: n == norm(f.name)):
+        for i, a in enumerate(t["args"]):
+            e = deep_strip(cb.expr(a, expand_named=True, at=bb))
+            r = None
+            if isinstance(e, tuple) and e[0] == "field" and e[2] in PIN_ROLES:
+                r = e[2]
+            elif isinstance(e, tuple) and e[0] == "field" and e[2] in ("0", "1") and find_calls(e[1], "pins::get_pins"):
+                r = {"0": "orthogonal_pins", "1": "diagonal_pins"}[e[2]]
+            else:
+                e2 = deep_strip(cb.expr(a, expand_named=False, at=bb))
+                if isinstance(e2, tuple) and e2[0] == "var" and e2[1] == "check_mask":
+                    r = "check_mask"
+            if r:
+                roles.setdefault(i + 1, set()).add(r)
+    return {k: next(iter(v)) for k, v in roles.items() if len(v) == 1}
+
+
+def site_pin_roles(fx, f, bb, t, roles):
+    """roles that can influence the constructor call: through the definition of the source set it iterates, or through any use
+    (of the mask or of a value computed from it) inside the per-piece loop body leading to the call"""
+    memo = {}
+
+    def roles_of_local(l):
+        if l not in memo:
+            memo[l] = set()
+            sl, _ = f.slice_back([l])
+            memo[l] = {roles[x] for x in sl | {l} if x in roles}
+        return memo[l]
+    out = set()
+    srcl = f.operand_locals(t["args"][0])
+    sl, _ = f.slice_back(srcl)
+    for l in sl:
+        if l in roles:
+            out.add(roles[l])
+    nexts = [b2 for b2, t2 in f.calls() if norm(callee_name(t2) or "").endswith("Iterator>::next") and t2["dest"]["l"] in sl]
+    for nb in nexts:
+        tgt = f.blocks[nb]["term"].get("target")
+        fwd = f.reachable(tgt, removed_blocks=[nb]) if tgt is not None else set()
+        for b in fwd:
+            if bb not in f.reachable(b, removed_blocks=[nb]) and b != bb:
+                continue
+            blk = f.blocks[b]
+            ops = []
+            for st in blk["stmts"]:
+                rv = st.get("rv")
+                if rv:
+                    ops += [x for o in f.rvalue_operands(rv) for x in f.operand_locals(o)]
+            tt = blk["term"]
+            if tt["k"] == "call":
+                ops += [x for a in tt["args"] for x in f.operand_locals(a)]
+            if tt["k"] == "switch":
+                ops += f.operand_locals(tt["discr"])
+            for l in set(ops):
+                out |= roles_of_local(l)
+    return out
+
+
+def rule_pins(fx, rep):
+    """Every move of a pawn, knight or slider is subject to both pin masks and to the check mask: each such constructor call
+    is influenced (dataflow of its source set, or uses inside its per-piece loop) by the orthogonal pin mask, the diagonal pin
+    mask and the check mask its generator receives. Which squares the masks allow is not decided - only that none is ignored."""
+    ok = True
+    n = 0
+    seen = {}
+    for site_b, bb, t, ctor, b, src, dst in ctor_sites(fx):
+        if site_b is not b:
+            continue  # helper whose squares are parameters: the masks act in the caller's loop (checked there through the call)
+        roles = param_roles(fx, site_b)
+        if set(roles.values()) != set(PIN_ROLES):
+            continue  # king generators (no masks) or a generator this rule cannot map
+        n += 1
+        got = site_pin_roles(fx, site_b, bb, t, roles)
+        missing = sorted(set(PIN_ROLES) - got)
+        good = not missing
+        rep.obligation(good)
+        k = f"{norm(site_b.name).split('::')[-1]}/{ctor}"
+        seen[k] = seen.get(k, 0) + 1
+        if not good:
+            ok = False
+            rep.violation("C01-PINS", f"C01-PINS/{k}" + (f"/{seen[k]}" if seen[k] > 1 else ""), f"`{site_b.name}` line {t.get('line')} builds Move::{ctor} without {missing} having any influence on it: "
+                          f"a piece pinned that way (or a move that does not answer a check) would still be generated", {"fn": site_b.name, "file": site_b.file, "line": t.get("line")})
+    rep.rule("C01-PINS", n, 12, ok, "pin masks and check mask influence every pawn / knight / slider move")
 
 
 # ---- C01-ATTACKERS -----------------------------------------------------------------------
@@ -1010,6 +1104,11 @@ def enum_name_of(e):
 GEN = "src/chess/movegen/gen.rs"
 MV = "src/chess/moves.rs"
 MUTANTS = [
+    {"name": "queen promotion push ignores diagonal pins (seed C01-4a)", "expect": "C01-PINS/generate_pawn_captures/quiet_promotion",
+     "edits": [(GEN, "    for pawn in can_push_once_pawns & will_promote_rank {\n        let target = pawn.forward(game.player);\n\n        // Pawns cannot push forward if they are pinned orthogonally\n        // There's no 'moving along the pin ray' for these pieces, since the target square is empty\n        if !orthogonal_pins.contains(pawn) {\n            moves.push(Move::quiet_promotion(\n                pawn,\n                target,\n                PromotionPieceKind::Queen,",
+                "    for pawn in can_capture_pawns & single_push_available_move_pawns & will_promote_rank {\n        let target = pawn.forward(game.player);\n\n        // Pawns cannot push forward if they are pinned orthogonally\n        // There's no 'moving along the pin ray' for these pieces, since the target square is empty\n        if !orthogonal_pins.contains(pawn) {\n            moves.push(Move::quiet_promotion(\n                pawn,\n                target,\n                PromotionPieceKind::Queen,")]},
+    {"name": "knight captures ignore the check mask", "expect": "C01-PINS/generate_knight_captures",
+     "edits": [(GEN, "        let destinations = tables::knight_attacks(knight) & check_mask;\n\n        let capture_destinations = destinations & their_pieces;", "        let destinations = tables::knight_attacks(knight);\n        let _ = check_mask;\n\n        let capture_destinations = destinations & their_pieces;")]},
     {"name": "enemy king no longer counted as an attacker (seed C01-2)", "expect": "C01-ATTACKERS/king_attacks",
      "edits": [("src/chess/movegen/attackers.rs", "    attackers |= tables::king_attacks(square) & board.king(them);\n\n    attackers\n}\n\npub fn all_attackers_of", "    attackers\n}\n\npub fn all_attackers_of")]},
     {"name": "diagonal attackers exclude queens", "expect": "C01-ATTACKERS/bishop_attacks",
